@@ -211,6 +211,7 @@ class Interp:
         self._loops = {}
         self.self_is_struct = True
         self.stats = {"paths": 0, "loop_heads": 0, "inlined": 0, "contract_uses": {}}
+        self.aligned = {}               # symbol -> modulus it is a multiple of
 
     # -- entry state ------------------------------------------------------------------------------
     def chain(self, ctx, syms):
@@ -232,6 +233,15 @@ class Interp:
         regions = {name: (Lin.sym(a), Lin.sym(b)) for name, (a, b) in self.track.items()}
         return ctx, heap, regions
 
+    def multiple_of(self, v, m):
+        """is the linear form syntactically a multiple of m (constants and symbols produced by an alignment mask)?"""
+        if not isinstance(v, Lin) or v.c.denominator != 1 or int(v.c) % m:
+            return False
+        for s_, c in v.t.items():
+            if c.denominator != 1 or (int(c) * self.aligned.get(s_, 1)) % m:
+                return False
+        return True
+
     def chain_holds(self, ctx, heap):
         prev = Lin(0)
         for f in self.cursors:
@@ -246,8 +256,9 @@ class Interp:
     def new_sym(self, hint, ctx, ty="usize"):
         s = "%s#%d" % (hint, next(self.fresh))
         ctx.nonneg.add(s)
-        if ty in UMAX:
-            ctx.add(Lin(UMAX[ty]) - Lin.sym(s))
+        top = UMAX.get(ty, 2 ** 64 - 1 if ty in ("usize", "u64") else None)
+        if top is not None:
+            ctx.add(Lin(top) - Lin.sym(s))
         return Lin.sym(s)
 
     def new_len(self, hint, ctx):
@@ -415,6 +426,21 @@ class Interp:
                     res = b.scale(a.c) if a.is_const() else a.scale(b.c)
                 elif base in ("Lt", "Le", "Gt", "Ge", "Eq", "Ne"):
                     return ('cmp', base, a, b)
+                elif base == "BitAnd" and (a.is_const() or b.is_const()):
+                    # v & !(2^k - 1): rounds v down to a multiple of 2^k
+                    if a.is_const() and b.is_const():
+                        return Lin(int(a.c) & int(b.c))
+
+                    def is_mask(x):
+                        lo = (2 ** 64 - 1) - int(x.c)
+                        return x.is_const() and lo >= 0 and (lo & (lo + 1)) == 0
+                    mask, v = (a, b) if (a.is_const() and is_mask(a)) else (b, a)
+                    low = (2 ** 64 - 1) - int(mask.c) if mask.is_const() else -1
+                    if low >= 0 and (low & (low + 1)) == 0:
+                        res = self.new_sym("aligned", ctx, rty)
+                        ctx.add(v - res)            # res <= v
+                        ctx.add(res - v + low)      # res >= v - low
+                        self.aligned[next(iter(res.t))] = low + 1
                 if res is not None:
                     return ('pair', res, ('bool', 0)) if wo else res
             if wo:
@@ -449,6 +475,8 @@ class Interp:
         if k == "un":
             v = self.operand(st, r["a"])
             if r["op"] == "Not":
+                if isinstance(v, Lin) and v.is_const() and ty in ("usize", "u64"):
+                    return Lin(2 ** 64 - 1 - int(v.c))
                 if isinstance(v, tuple) and v[0] == 'cmp':
                     neg = {"Lt": "Ge", "Le": "Gt", "Gt": "Le", "Ge": "Lt", "Eq": "Ne", "Ne": "Eq"}
                     return ('cmp', neg[v[1]], v[2], v[3])
